@@ -22,11 +22,15 @@ def ops_numpy(rng, d):
         rows = [al.datum(rng) for _ in range(n)]
         wf = rng.choice(["one", "one", "scalar", "array"])
         # the batch as a record array, a dict of columns or a pandas DataFrame
-        ev = {"op": "FillNumpy", "s": s, "rows": rows, "wf": wf, "bf": rng.choice(["rec", "rec", "dict"])}
+        ev = {"op": "FillNumpy", "s": s, "rows": rows, "wf": wf, "bf": rng.choice(["rec", "rec", "dict", "ints"])}
         if wf == "scalar":
             ev["wsc"] = rng.choice(DR.POSWEIGHTS)
         elif wf == "array":
-            ev["ws"] = [rng.choice(DR.POSWEIGHTS + [Q(0)]) for _ in range(n)]
+            if rng.random() < 0.3:      # whole-number weights in an integer array
+                ev["ws"] = [rng.choice([Q(1), Q(2), Q(0), Q(3)]) for _ in range(n)]
+                ev["wdt"] = rng.choice(["i8", "i4"])
+            else:
+                ev["ws"] = [rng.choice(DR.POSWEIGHTS + [Q(0)]) for _ in range(n)]
         ops.append(ev)
     return ops, 2
 
@@ -181,6 +185,29 @@ def ops_eq(rng, d, cats=DR.CATS):
     ops.append({"op": "Eq", "a": 1, "b": 2, "must": False})
     ops.append({"op": "Eq", "a": 2, "b": 1, "must": False})
     return ops, 2
+
+
+def ops_eq_built(rng, d):
+    """Stack.build / Fraction.build results compared with their pickle clone, their JSON reload and a second build
+    from the same sources: equal content (a built Stack has NaN thresholds) is equal"""
+    al = DR.Alphabet(d)
+    ops = [{"op": "New", "s": 1, "d": d}, {"op": "New", "s": 2, "d": d}]
+    for _ in range(rng.randint(0, 4)):
+        ops.append({"op": "Fill", "s": rng.choice([1, 2]), "x": al.datum(rng), "w": rng.choice(DR.POSWEIGHTS)})
+    if rng.random() < 0.7:
+        mk = lambda t: {"op": "StackBuild", "t": t, "srcs": [1, 2, 1][:rng.choice([1, 2, 3])]}  # noqa: E731
+    else:
+        mk = lambda t: {"op": "FractionBuild", "t": t, "a": 1, "b": 2}  # noqa: E731
+    b = mk(3)
+    ops.append(b)
+    ops.append(dict(b, t=4))
+    ops.append({"op": "Eq", "a": 3, "b": 4, "must": True})
+    ops.append({"op": "Drop", "s": 4})
+    ops.append({"op": rng.choice(["Pickle", "Copy"]), "t": 4, "a": 3})
+    ops.append({"op": "Eq", "a": 3, "b": 4, "must": True})
+    ops.append({"op": "Drop", "s": 4})
+    ops.append({"op": "Drop", "s": 3})
+    return ops, 4
 
 
 def ops_eq_history(rng, d, cats=DR.CATS):
@@ -452,6 +479,48 @@ def shared_trees(rng):
     return D.Branch(D.Bin(2, 0, 4, "x", X), D.Bin(2, 0, 4, "y", X)), False
 
 
+def ops_argshare(rng):
+    """C06: ONE aggregator object with internal structure (a Bag, a Bin, a Label, a Categorize) passed as the flow or
+    the value of TWO containers: the constructors copy what they are given, so the two containers (and the argument)
+    share nothing - filling one leaves the other alone"""
+    X = dict(rng.choice([D.Bag("y", "N"), D.Bin(2, 0, 4, "y"), D.Label(a=D.Sum("y")), D.Categorize("c"),
+                         D.SparselyBin(2, "y"), D.Bag("c", "S")]), share="A")
+    val = rng.choice([D.Count(), D.Sum("y")])
+
+    def host():
+        k = rng.randrange(8)
+        if k == 0:
+            return D.Bin(2, 0, 4, "x", val, under=X)
+        if k == 1:
+            return D.Bin(2, 0, 4, "x", val, over=X, nan=X)
+        if k == 2:
+            return D.Bin(2, 0, 4, "x", X)
+        if k == 3:
+            return D.SparselyBin(2, "x", val, nan=X)
+        if k == 4:
+            return D.CentrallyBin([0, 2, 4], "x", val, nan=X)
+        if k == 5:
+            return D.IrregularlyBin([1, 3], "x", X, nan=X)
+        if k == 6:
+            return D.Stack([1, 3], "x", val, nan=X)
+        return D.Categorize("c", X)
+
+    def twice():      # (an Index holds values of one type)
+        h = host()
+        return D.Index(h, h)
+
+    d = rng.choice([lambda: D.Branch(host(), host()), lambda: D.UntypedLabel(a=host(), b=host()), twice])()
+    al = DR.Alphabet(d, DR.CATS_NP)
+    ops = [{"op": "NewShared", "s": 1, "d": d}]
+    for _ in range(rng.randint(2, 6)):
+        x = al.datum(rng)
+        if rng.random() < 0.5:
+            x["x"] = rng.choice([NAN, Q(-3), Q(9)])      # into the flows
+        ops.append({"op": "Fill", "s": 1, "x": x, "w": rng.choice(DR.POSWEIGHTS)})
+    ops.append({"op": "Read", "a": 1, "which": "toJson"})
+    return ops, 1, d
+
+
 def ops_shared(rng):
     d, really = shared_trees(rng)
     al = DR.Alphabet(d, DR.CATS_NP)
@@ -480,7 +549,7 @@ def view_tree(rng):
     if k == 3:
         return D.CentrallyBin(rng.choice([[0, 2, 4], [-1, 1, 2, 5]]), "x", child), "1d"
     if k == 4:
-        return D.IrregularlyBin(rng.choice([[1, 3], [0, 2, 4]]), "x", child), "1d"
+        return D.IrregularlyBin(rng.choice([[1, 3], [0, 2, 4], [1, 1, 3], [0, 2, 2, 2, 4]]), "x", child), "1d"
     if k == 5:
         return D.Categorize("c", child), "cat"
     if k == 6:
@@ -669,14 +738,14 @@ def ops_frame(rng):
         op["time_axis"] = "t"
         op["time_width"] = rng.choice(["30d", "7d", "1d"])
     if rng.random() < 0.3:
-        op["index"] = rng.sample(range(50), n)
+        op["index"] = rng.sample(range(50), n) if rng.random() < 0.6 else [rng.randrange(3) for _ in range(n)]
     ops = [op]
     # chunks binned with the returned specifications add up to the whole
     k = rng.randint(1, min(3, n))
     cuts = sorted(rng.sample(range(1, n), k - 1)) if k > 1 else []
     bounds = [0] + cuts + [n]
     slots = []
-    labels = rng.choice(["default", "slice", "slice", "shuffled"])
+    labels = rng.choice(["default", "slice", "slice", "shuffled", "repeated"])
     for ci in range(k):
         ch = rows[bounds[ci]:bounds[ci + 1]]
         cop = dict(op, t=2 + ci, rows=ch, reuse=1)
@@ -685,6 +754,8 @@ def ops_frame(rng):
             cop["index"] = list(range(bounds[ci], bounds[ci + 1]))
         elif labels == "shuffled":   # a filtered / shuffled frame
             cop["index"] = rng.sample(range(100), len(ch))
+        elif labels == "repeated":   # pd.concat without ignore_index: labels occur several times
+            cop["index"] = [rng.randrange(2) for _ in ch]
         ops.append(cop)
         slots.append(2 + ci)
     acc = slots[0]
